@@ -1871,7 +1871,7 @@ fn tok_s(t: &T) -> String {
 fn case_lex(case: &str) -> Option<Fail> {
     // the reference reads letters and ASCII digits; for other numeric characters, combining marks, connector punctuation,
     // joiners and the like (where regex `\\w` / `\\d` and the char predicates differ) the only requirement is: no panic
-    let plain = |c: char| c.is_ascii() || (c.is_alphabetic() && !c.is_numeric() && c.len_utf8() == 2);
+    let plain = |c: char| c.is_ascii() || (c.is_alphabetic() && !c.is_numeric());
     if case.chars().any(|c| (c.is_numeric() && !c.is_ascii_digit()) || !plain(c)) {
         // the only requirement there: no panic
         tick();
@@ -1928,7 +1928,7 @@ fn search_lex(budget: usize, seed: u64) -> Option<Fail> {
     }
     // all strings of up to 3 (thorough: 4) CHARACTERS over a character alphabet: what the lexeme alphabet cannot produce
     // (a lone quote / brace / apostrophe between arbitrary neighbours, control characters, mixed-script words and numbers)
-    let chars: Vec<char> = "ab_1 9'\"{}()[],#-!&|^*+=<>@;.:?/\\~$%\0\t\n\ré٣９Ωß\u{2167}\u{3007}\u{ff3f}\u{203f}\u{301}\u{200d}\u{bd}\u{feff}".chars().collect();
+    let chars: Vec<char> = "ab_1 9'\"{}()[],#-!&|^*+=<>@;.:?/\\~$%\0\t\n\ré٣９Ωß\u{2167}\u{3007}\u{ff3f}\u{203f}\u{301}\u{200d}\u{bd}\u{feff}\u{53d8}\u{1d4d0}".chars().collect();
     for a in &chars {
         for b in &chars {
             if let Some(f) = case_lex(&format!("{a}{b}")) {
